@@ -1,6 +1,1255 @@
-//! C08 — not implemented yet.
-use crate::core::Ctx;
-use serde_json::Value;
+//! C08 — network-facing decoders are total and memory-safe on arbitrary bytes (DESIGN §5 C08).
+//!
+//! One case = (decoder, target type, input bytes).  Every case inside the bound is executed on the real
+//! decoder; the oracle is the statement itself: the call returns `Ok`/`Err` (no panic, no abort, no hang),
+//! every yielded `str`/`String`/`char` re-validates, every borrowed slice lies inside the input (pointer range),
+//! and an `Err`'s message is itself valid UTF-8.
+//!
+//! Isolation: all decoder calls of a unit run in a **forked child** of the worker.  Before each call the child
+//! stores the call index in a shared page, pass counters live in that shared page too, and every violation is
+//! written to a pipe immediately.  If the child dies from a signal (SIGABRT from a non-unwinding panic of
+//! `unwrap_unchecked` / `get_unchecked` precondition checks, SIGSEGV, stack overflow, allocation failure …) or
+//! stops making progress, the parent knows the exact case, records it as `abort:<signal>` / `hang`, and forks
+//! a new child that resumes with the next call.  Nothing is lost and nothing is re-run.
+use crate::app;
+use crate::core::{esc, guarded, unesc, Ctx};
+use crate::exec::{Driver, RunResult};
+use crate::refmodel::urlenc as refenc;
+use crate::sio::ScriptedReader;
+use ohkami::__verif__::{RawConn, VerifRouter};
+use ohkami_lib::serde_multipart::File;
+use serde::de::{self, Deserializer, IgnoredAny, MapAccess, SeqAccess, Visitor};
+use serde::Deserialize;
+use serde_json::{json, Value};
+use std::borrow::Cow;
+use std::collections::{BTreeMap, HashSet};
+use std::sync::atomic::{AtomicU64, Ordering};
 
-pub fn run(ctx: &mut Ctx) { ctx.machinery_error("C08 engine not implemented".into()); }
-pub fn replay(ctx: &mut Ctx, _case: &Value) { ctx.machinery_error("C08 engine not implemented".into()); }
+/* =====================================================================================================
+   what a call can yield, and the checks on it
+   ===================================================================================================== */
+
+#[derive(Debug)]
+pub enum CallOut {
+    Err,
+    /// `inspected`: at least one non-empty string / slice / char was actually checked
+    Ok { inspected: bool },
+    /// (symptom, observed detail)
+    Bad(String, String),
+}
+
+pub struct Insp {
+    lo: usize,
+    hi: usize,
+    /// a static the decoder may legitimately hand out instead of a slice of the input (`"/"` for the empty path)
+    allowed_static: &'static str,
+    inspected: u32,
+    issue: Option<(&'static str, String)>,
+}
+
+fn short(b: &[u8]) -> String { esc(&b[..b.len().min(48)]) }
+
+impl Insp {
+    fn new(range: (usize, usize)) -> Self { Insp { lo: range.0, hi: range.1, allowed_static: "", inspected: 0, issue: None } }
+    fn set(&mut self, kind: &'static str, detail: String) { if self.issue.is_none() { self.issue = Some((kind, detail)) } }
+    /// pointer-range check; false = the memory must not be read
+    fn range(&mut self, p: *const u8, len: usize) -> bool {
+        if len == 0 { return true }
+        self.inspected += 1;
+        let a = p as usize;
+        let inside = a >= self.lo && a.checked_add(len).map_or(false, |e| e <= self.hi);
+        if !inside {
+            self.set("out-of-range-slice", format!("slice of {} bytes at input offset {} (input has {} bytes)", len, a as i128 - self.lo as i128, self.hi - self.lo));
+        }
+        inside
+    }
+    fn utf8(&mut self, b: &[u8]) { if std::str::from_utf8(b).is_err() { self.set("invalid-utf8", short(b)) } }
+    fn borrowed_bytes(&mut self, b: &[u8]) { self.range(b.as_ptr(), b.len()); }
+    fn borrowed_str(&mut self, s: &str) {
+        let a = s.as_ptr() as usize;
+        let inside = a >= self.lo && a.checked_add(s.len()).map_or(false, |e| e <= self.hi);
+        if !inside && !self.allowed_static.is_empty() && s.len() == self.allowed_static.len() && s == self.allowed_static { self.inspected += 1; return }
+        if self.range(s.as_ptr(), s.len()) { self.utf8(s.as_bytes()) }
+    }
+    /// a `&str` of which we cannot know whether it is borrowed: if it starts inside the input it must end inside
+    fn maybe_borrowed_str(&mut self, s: &str) {
+        let a = s.as_ptr() as usize;
+        if !s.is_empty() && a >= self.lo && a < self.hi { self.borrowed_str(s) } else { self.owned_str(s) }
+    }
+    fn owned_str(&mut self, s: &str) { if !s.is_empty() { self.inspected += 1 } self.utf8(s.as_bytes()) }
+    fn ch(&mut self, c: char) {
+        self.inspected += 1;
+        let u = std::hint::black_box(c as u32);
+        if char::from_u32(u).is_none() { self.set("invalid-char", format!("U+{u:X}")) }
+    }
+}
+
+pub trait Inspect { fn chk(&self, x: &mut Insp); }
+macro_rules! inspect_nothing { ($($t:ty),*) => { $( impl Inspect for $t { fn chk(&self, _: &mut Insp) {} } )* } }
+inspect_nothing!(bool, u8, u16, u32, u64, u128, usize, i8, i16, i32, i64, isize, f32, f64, (), IgnoredAny, UnitS, E);
+impl Inspect for char { fn chk(&self, x: &mut Insp) { x.ch(*self) } }
+impl Inspect for &str { fn chk(&self, x: &mut Insp) { x.borrowed_str(self) } }
+impl Inspect for String { fn chk(&self, x: &mut Insp) { x.owned_str(self) } }
+impl Inspect for Cow<'_, str> {
+    fn chk(&self, x: &mut Insp) { match self { Cow::Borrowed(s) => x.borrowed_str(s), Cow::Owned(s) => x.owned_str(s) } }
+}
+impl Inspect for &[u8] { fn chk(&self, x: &mut Insp) { x.borrowed_bytes(self) } }
+impl Inspect for Cow<'_, [u8]> {
+    fn chk(&self, x: &mut Insp) { match self { Cow::Borrowed(b) => x.borrowed_bytes(b), Cow::Owned(b) => { if !b.is_empty() { x.inspected += 1 } } } }
+}
+impl<T: Inspect> Inspect for Option<T> { fn chk(&self, x: &mut Insp) { if let Some(t) = self { t.chk(x) } } }
+impl<T: Inspect> Inspect for Vec<T> { fn chk(&self, x: &mut Insp) { for t in self { t.chk(x) } } }
+impl<A: Inspect, B: Inspect> Inspect for (A, B) { fn chk(&self, x: &mut Insp) { self.0.chk(x); self.1.chk(x) } }
+impl<K: Inspect, V: Inspect> Inspect for BTreeMap<K, V> { fn chk(&self, x: &mut Insp) { for (k, v) in self { k.chk(x); v.chk(x) } } }
+impl Inspect for File<'_> {
+    fn chk(&self, x: &mut Insp) { x.borrowed_str(self.filename); x.borrowed_str(self.mimetype); x.borrowed_bytes(self.content) }
+}
+
+/* ---------------- the target catalogue ---------------- */
+
+#[derive(Deserialize)] pub struct W<T> { #[serde(alias = "n")] a: T }
+impl<T: Inspect> Inspect for W<T> { fn chk(&self, x: &mut Insp) { self.a.chk(x) } }
+#[derive(Deserialize)] pub struct WCow<'x> { #[serde(alias = "n", borrow)] a: Cow<'x, str> }
+impl Inspect for WCow<'_> { fn chk(&self, x: &mut Insp) { self.a.chk(x) } }
+#[derive(Deserialize)] pub struct Two { #[serde(alias = "n")] a: String, #[serde(rename = "F", alias = "f")] f: u8 }
+impl Inspect for Two { fn chk(&self, x: &mut Insp) { self.a.chk(x); self.f.chk(x) } }
+#[derive(Deserialize)] #[serde(deny_unknown_fields)] pub struct TwoDeny { #[serde(alias = "n")] a: String, #[serde(rename = "F", alias = "f")] f: Option<u8> }
+impl Inspect for TwoDeny { fn chk(&self, x: &mut Insp) { self.a.chk(x); self.f.chk(x) } }
+#[derive(Deserialize)] pub struct Inner { #[serde(alias = "n")] a: String }
+impl Inspect for Inner { fn chk(&self, x: &mut Insp) { self.a.chk(x) } }
+#[derive(Deserialize)] pub struct UnitS;
+#[derive(Deserialize)] pub enum E { #[serde(rename = "a")] A, F, #[serde(rename = "1")] One, #[serde(rename = "x")] X, #[serde(rename = "true")] T }
+#[derive(Deserialize)] pub enum Mixed { #[serde(rename = "a")] A, #[serde(rename = "1")] N(u8), F { a: String }, #[serde(rename = "x")] T(u8, String) }
+impl Inspect for Mixed {
+    fn chk(&self, x: &mut Insp) { match self { Mixed::A | Mixed::N(_) => {}, Mixed::F { a } => a.chk(x), Mixed::T(_, s) => s.chk(x) } }
+}
+#[derive(Deserialize)] pub struct Nt<T>(T);
+impl<T: Inspect> Inspect for Nt<T> { fn chk(&self, x: &mut Insp) { self.0.chk(x) } }
+#[allow(dead_code)] #[derive(Deserialize)] pub struct Ts(u8, String);
+impl Inspect for Ts { fn chk(&self, x: &mut Insp) { self.1.chk(x) } }
+
+/// owned bytes through `deserialize_byte_buf`
+pub struct BytesBuf(Vec<u8>);
+impl Inspect for BytesBuf { fn chk(&self, x: &mut Insp) { if !self.0.is_empty() { x.inspected += 1 } } }
+impl<'de> Deserialize<'de> for BytesBuf {
+    fn deserialize<D: Deserializer<'de>>(d: D) -> Result<Self, D::Error> {
+        struct V;
+        impl<'de> Visitor<'de> for V {
+            type Value = BytesBuf;
+            fn expecting(&self, f: &mut std::fmt::Formatter) -> std::fmt::Result { f.write_str("bytes") }
+            fn visit_bytes<E: de::Error>(self, v: &[u8]) -> Result<BytesBuf, E> { Ok(BytesBuf(v.to_vec())) }
+            fn visit_byte_buf<E: de::Error>(self, v: Vec<u8>) -> Result<BytesBuf, E> { Ok(BytesBuf(v)) }
+            fn visit_str<E: de::Error>(self, v: &str) -> Result<BytesBuf, E> { Ok(BytesBuf(v.as_bytes().to_vec())) }
+        }
+        d.deserialize_byte_buf(V)
+    }
+}
+
+/// self-describing target: whatever `deserialize_any` offers
+pub enum Any<'a> {
+    Plain,
+    Char(char),
+    Str(Cow<'a, str>),
+    Bytes(Cow<'a, [u8]>),
+    Seq(Vec<Any<'a>>),
+    Map(Vec<(Any<'a>, Any<'a>)>),
+    Boxed(Box<Any<'a>>),
+}
+impl Inspect for Any<'_> {
+    fn chk(&self, x: &mut Insp) {
+        match self {
+            Any::Plain => {}
+            Any::Char(c) => x.ch(*c),
+            Any::Str(s) => s.chk(x),
+            Any::Bytes(b) => b.chk(x),
+            Any::Seq(v) => for a in v { a.chk(x) },
+            Any::Map(v) => for (k, w) in v { k.chk(x); w.chk(x) },
+            Any::Boxed(b) => b.chk(x),
+        }
+    }
+}
+impl<'de: 'a, 'a> Deserialize<'de> for Any<'a> {
+    fn deserialize<D: Deserializer<'de>>(d: D) -> Result<Self, D::Error> {
+        struct V<'a>(std::marker::PhantomData<&'a ()>);
+        impl<'de: 'a, 'a> Visitor<'de> for V<'a> {
+            type Value = Any<'a>;
+            fn expecting(&self, f: &mut std::fmt::Formatter) -> std::fmt::Result { f.write_str("anything") }
+            fn visit_bool<E: de::Error>(self, _: bool) -> Result<Any<'a>, E> { Ok(Any::Plain) }
+            fn visit_i64<E: de::Error>(self, _: i64) -> Result<Any<'a>, E> { Ok(Any::Plain) }
+            fn visit_u64<E: de::Error>(self, _: u64) -> Result<Any<'a>, E> { Ok(Any::Plain) }
+            fn visit_f64<E: de::Error>(self, _: f64) -> Result<Any<'a>, E> { Ok(Any::Plain) }
+            fn visit_char<E: de::Error>(self, c: char) -> Result<Any<'a>, E> { Ok(Any::Char(c)) }
+            fn visit_str<E: de::Error>(self, v: &str) -> Result<Any<'a>, E> { Ok(Any::Str(Cow::Owned(v.to_string()))) }
+            fn visit_borrowed_str<E: de::Error>(self, v: &'de str) -> Result<Any<'a>, E> { Ok(Any::Str(Cow::Borrowed(v))) }
+            fn visit_string<E: de::Error>(self, v: String) -> Result<Any<'a>, E> { Ok(Any::Str(Cow::Owned(v))) }
+            fn visit_bytes<E: de::Error>(self, v: &[u8]) -> Result<Any<'a>, E> { Ok(Any::Bytes(Cow::Owned(v.to_vec()))) }
+            fn visit_borrowed_bytes<E: de::Error>(self, v: &'de [u8]) -> Result<Any<'a>, E> { Ok(Any::Bytes(Cow::Borrowed(v))) }
+            fn visit_byte_buf<E: de::Error>(self, v: Vec<u8>) -> Result<Any<'a>, E> { Ok(Any::Bytes(Cow::Owned(v))) }
+            fn visit_none<E: de::Error>(self) -> Result<Any<'a>, E> { Ok(Any::Plain) }
+            fn visit_unit<E: de::Error>(self) -> Result<Any<'a>, E> { Ok(Any::Plain) }
+            fn visit_some<D: Deserializer<'de>>(self, d: D) -> Result<Any<'a>, D::Error> { Ok(Any::Boxed(Box::new(Any::deserialize(d)?))) }
+            fn visit_newtype_struct<D: Deserializer<'de>>(self, d: D) -> Result<Any<'a>, D::Error> { Ok(Any::Boxed(Box::new(Any::deserialize(d)?))) }
+            fn visit_seq<A: SeqAccess<'de>>(self, mut s: A) -> Result<Any<'a>, A::Error> {
+                let mut v = Vec::new();
+                while let Some(a) = s.next_element::<Any<'a>>()? { v.push(a); if v.len() > 10_000 { break } }
+                Ok(Any::Seq(v))
+            }
+            fn visit_map<A: MapAccess<'de>>(self, mut m: A) -> Result<Any<'a>, A::Error> {
+                let mut v = Vec::new();
+                while let Some(k) = m.next_key::<Any<'a>>()? { let w = m.next_value::<Any<'a>>()?; v.push((k, w)); if v.len() > 10_000 { break } }
+                Ok(Any::Map(v))
+            }
+        }
+        d.deserialize_any(V(std::marker::PhantomData))
+    }
+}
+
+type Range = (usize, usize);
+fn range_of(b: &[u8]) -> Range { let p = b.as_ptr() as usize; (p, p + b.len()) }
+
+pub struct Target {
+    pub name: &'static str,
+    pub kind: &'static str,
+    urlenc: fn(&[u8], Range) -> CallOut,
+    cookie: fn(&str, Range) -> CallOut,
+    multipart: fn(&[u8], Range) -> CallOut,
+    utf8: fn(&str, Range) -> CallOut,
+    query: fn(&ohkami::Request, Range) -> CallOut,
+}
+
+fn panic_slug(msg: &str) -> String {
+    let head = msg.split(" @ ").next().unwrap_or(msg).lines().next().unwrap_or("");
+    // messages of str slicing embed the (possibly garbage) string and differ between runs once a str is invalid
+    if head.contains("byte index") && (head.contains("out of bounds") || head.contains("char boundary")) { return "str-byte-index-out-of-bounds-or-not-a-char-boundary".into() }
+    let head = head.replace("`=`", " EQ ").replace("`&`", " AMP ").replace("`; `", " SEMI-SP ").replace("`;`", " SEMI ").replace("` `", " SP ");
+    let mut out = String::new();
+    let mut last_dash = true;
+    for c in head.chars() {
+        let c = if c.is_ascii_digit() { '#' } else { c };
+        if c.is_ascii_alphanumeric() || c == '#' {
+            if c == '#' && out.ends_with('#') { continue }
+            out.push(c); last_dash = false;
+        } else if !last_dash { out.push('-'); last_dash = true }
+        if out.len() >= 90 { break }
+    }
+    while out.ends_with('-') { out.pop(); }
+    if out.is_empty() { out.push_str("unknown") }
+    out
+}
+
+/// turn the guarded result of a decoder call into a `CallOut`, running the checks on an `Ok` value
+fn fin<T: Inspect, Er: std::fmt::Display>(range: Range, r: Result<Result<T, Er>, String>) -> CallOut {
+    match r {
+        Err(p) => CallOut::Bad(format!("panic:{}", panic_slug(&p)), p),
+        Ok(Err(e)) => match guarded(|| e.to_string()) {
+            Err(p) => CallOut::Bad(format!("panic-in-error-display:{}", panic_slug(&p)), p),
+            Ok(m) => if std::str::from_utf8(m.as_bytes()).is_err() { CallOut::Bad("invalid-utf8-in-error".into(), short(m.as_bytes())) } else { CallOut::Err },
+        },
+        Ok(Ok(t)) => fin_value(range, "", t),
+    }
+}
+fn fin_value<T: Inspect>(range: Range, allowed_static: &'static str, t: T) -> CallOut {
+    let mut x = Insp::new(range);
+    x.allowed_static = allowed_static;
+    if let Err(p) = guarded(|| t.chk(&mut x)) { return CallOut::Bad(format!("panic-reading-yielded-value:{}", panic_slug(&p)), p) }
+    if let Err(p) = guarded(move || drop(t)) { return CallOut::Bad(format!("panic-dropping-yielded-value:{}", panic_slug(&p)), p) }
+    match x.issue { Some((k, d)) => CallOut::Bad(k.into(), d), None => CallOut::Ok { inspected: x.inspected > 0 } }
+}
+
+macro_rules! catalogue {
+    ($( $name:literal, $kind:literal, $ty:ty; )*) => {
+        pub static TARGETS: &[Target] = &[ $( Target {
+            name: $name, kind: $kind,
+            urlenc:    |i, r| fin(r, guarded(|| ohkami_lib::serde_urlencoded::from_bytes::<$ty>(i))),
+            cookie:    |s, r| fin(r, guarded(|| ohkami_lib::serde_cookie::from_str::<$ty>(s))),
+            multipart: |i, r| fin(r, guarded(|| ohkami_lib::serde_multipart::from_bytes::<$ty>(i))),
+            utf8:      |s, r| fin(r, guarded(|| ohkami_lib::serde_utf8::from_str::<$ty>(s))),
+            query:     |q, r| fin(r, guarded(|| q.query.parse::<$ty>())),
+        } ),* ];
+    };
+}
+
+catalogue! {
+    "f:bool", "field:prim-bool", W<bool>;
+    "f:u8", "field:prim-int", W<u8>;
+    "f:u16", "field:prim-int", W<u16>;
+    "f:u32", "field:prim-int", W<u32>;
+    "f:u64", "field:prim-int", W<u64>;
+    "f:usize", "field:prim-int", W<usize>;
+    "f:i8", "field:prim-int", W<i8>;
+    "f:i16", "field:prim-int", W<i16>;
+    "f:i32", "field:prim-int", W<i32>;
+    "f:i64", "field:prim-int", W<i64>;
+    "f:isize", "field:prim-int", W<isize>;
+    "f:u128", "field:prim-int128", W<u128>;
+    "f:f32", "field:prim-float", W<f32>;
+    "f:f64", "field:prim-float", W<f64>;
+    "f:char", "field:char", W<char>;
+    "f:&str", "field:str-borrowed", W<&'_ str>;
+    "f:String", "field:str-owned", W<String>;
+    "f:Cow<str>", "field:str-cow", WCow<'_>;
+    "f:&[u8]", "field:bytes-borrowed", W<&'_ [u8]>;
+    "f:ByteBuf", "field:bytes-owned", W<BytesBuf>;
+    "f:Option<String>", "field:option-str-owned", W<Option<String>>;
+    "f:Option<u8>", "field:prim-int-in-option", W<Option<u8>>;
+    "f:Option<&str>", "field:option-str-borrowed", W<Option<&'_ str>>;
+    "f:()", "field:unit", W<()>;
+    "f:UnitStruct", "field:unit-struct", W<UnitS>;
+    "f:enum", "field:enum-unit", W<E>;
+    "f:enum-with-data", "field:enum-data", W<Mixed>;
+    "f:Newtype<u8>", "field:prim-int-in-newtype", W<Nt<u8>>;
+    "f:Newtype<String>", "field:newtype-str-owned", W<Nt<String>>;
+    "f:Vec<String>", "field:seq-of-str", W<Vec<String>>;
+    "f:Vec<u8>", "field:seq-of-int", W<Vec<u8>>;
+    "f:Vec<&str>", "field:seq-of-str-borrowed", W<Vec<&'_ str>>;
+    "f:(u8,String)", "field:seq-tuple", W<(u8, String)>;
+    "f:TupleStruct", "field:seq-tuple-struct", W<Ts>;
+    "f:BTreeMap<String,String>", "field:map", W<BTreeMap<String, String>>;
+    "f:struct", "field:struct", W<Inner>;
+    "f:IgnoredAny", "field:ignored", W<IgnoredAny>;
+    "f:Any", "field:any", W<Any<'_>>;
+    "f:File", "field:file", W<File<'_>>;
+    "f:Vec<File>", "field:seq-of-file", W<Vec<File<'_>>>;
+    "f:Option<File>", "field:option-file", W<Option<File<'_>>>;
+    "t:struct2", "top:struct(str,prim-int)", Two;
+    "t:struct2-deny-unknown", "top:struct-deny-unknown(str,prim-int-in-option)", TwoDeny;
+    "t:BTreeMap<String,String>", "top:map(str,str)", BTreeMap<String, String>;
+    "t:BTreeMap<&str,&str>", "top:map(str-borrowed)", BTreeMap<&'_ str, &'_ str>;
+    "t:BTreeMap<String,u8>", "top:map(str,prim-int)", BTreeMap<String, u8>;
+    "t:Newtype<struct>", "top:newtype(struct(str))", Nt<W<String>>;
+    "t:Vec<String>", "top:seq-of-str", Vec<String>;
+    "t:(u8,String)", "top:seq-tuple", (u8, String);
+    "t:String", "top:str-owned", String;
+    "t:&str", "top:str-borrowed", &'_ str;
+    "t:u8", "top:prim-int", u8;
+    "t:i64", "top:prim-int", i64;
+    "t:bool", "top:prim-bool", bool;
+    "t:f64", "top:prim-float", f64;
+    "t:char", "top:char", char;
+    "t:Option<u8>", "top:prim-int-in-option", Option<u8>;
+    "t:()", "top:unit", ();
+    "t:enum", "top:enum-unit", E;
+    "t:&[u8]", "top:bytes-borrowed", &'_ [u8];
+    "t:IgnoredAny", "top:ignored", IgnoredAny;
+    "t:Any", "top:any", Any<'_>;
+    "t:File", "top:file", File<'_>;
+}
+
+/* =====================================================================================================
+   decoders
+   ===================================================================================================== */
+
+#[derive(Clone, Copy, PartialEq, Eq, Debug)]
+pub enum Dec {
+    Urlenc, QueryParse, QueryIter, Cookie, CookiesIter, SetCookieName, SetCookiePath,
+    Percent, RawParam, PathStr, PathParams, Multipart, Utf8,
+}
+const ALL_DECS: &[Dec] = &[Dec::Urlenc, Dec::QueryParse, Dec::QueryIter, Dec::Cookie, Dec::CookiesIter, Dec::SetCookieName,
+    Dec::SetCookiePath, Dec::Percent, Dec::RawParam, Dec::PathStr, Dec::PathParams, Dec::Multipart, Dec::Utf8];
+
+const PERCENT_T: &[(&str, &str)] = &[("percent_decode", "bytes-cow"), ("percent_decode_utf8", "str-cow")];
+const RAWPARAM_T: &[(&str, &str)] = &[("String", "str-owned"), ("Cow<str>", "str-cow"), ("&str", "str-borrowed"), ("u8", "prim-int"), ("u64", "prim-int"), ("i8", "prim-int"), ("i64", "prim-int")];
+const PATHSTR_T: &[(&str, &str)] = &[("Path::str", "str-cow"), ("Path::deref", "str-borrowed"), ("Path::fmt", "display")];
+const PATHPARAMS_T: &[(&str, &str)] = &[("Path::params", "str-cow"), ("handler(String)", "str-owned")];
+const SINGLE_T: &[(&str, &str)] = &[("iter", "pairs")];
+
+impl Dec {
+    pub fn name(self) -> &'static str {
+        match self {
+            Dec::Urlenc => "urlencoded", Dec::QueryParse => "query-parse", Dec::QueryIter => "query-iter",
+            Dec::Cookie => "cookie", Dec::CookiesIter => "cookies-iter",
+            Dec::SetCookieName => "setcookie@name", Dec::SetCookiePath => "setcookie@path",
+            Dec::Percent => "percent", Dec::RawParam => "raw-param", Dec::PathStr => "path-str", Dec::PathParams => "path-params",
+            Dec::Multipart => "multipart", Dec::Utf8 => "utf8",
+        }
+    }
+    fn from_name(s: &str) -> Option<Dec> { ALL_DECS.iter().copied().find(|d| d.name() == s) }
+    fn uses_catalogue(self) -> bool { matches!(self, Dec::Urlenc | Dec::QueryParse | Dec::Cookie | Dec::Multipart | Dec::Utf8) }
+    fn other_targets(self) -> &'static [(&'static str, &'static str)] {
+        match self {
+            Dec::Percent => PERCENT_T, Dec::RawParam => RAWPARAM_T, Dec::PathStr => PATHSTR_T, Dec::PathParams => PATHPARAMS_T,
+            _ => SINGLE_T,
+        }
+    }
+    pub fn ntargets(self) -> usize { if self.uses_catalogue() { TARGETS.len() } else { self.other_targets().len() } }
+    pub fn target_name(self, t: usize) -> &'static str { if self.uses_catalogue() { TARGETS[t].name } else { self.other_targets()[t].0 } }
+    pub fn target_kind(self, t: usize) -> &'static str { if self.uses_catalogue() { TARGETS[t].kind } else { self.other_targets()[t].1 } }
+    fn needs_utf8_input(self) -> bool { matches!(self, Dec::Cookie | Dec::CookiesIter | Dec::SetCookieName | Dec::SetCookiePath | Dec::Utf8) }
+}
+
+/// per-child state that is expensive to rebuild for every call
+#[derive(Default)]
+struct Cache {
+    /// (index of the input the connection was read for, connection or None if the request was not accepted, base of its buffer)
+    conn: Option<(usize, Option<RawConn>)>,
+    router: Option<VerifRouter>,
+}
+
+fn read_request(raw: &[u8]) -> Result<Option<RawConn>, String> {
+    guarded(|| {
+        let mut conn = RawConn::init();
+        let mut reader = ScriptedReader::new(vec![raw.to_vec()], false);
+        reader.deliver_next();
+        let mut d = Driver::new();
+        let accepted = {
+            let fut = conn.read(&mut reader);
+            let mut fut = std::pin::pin!(fut);
+            matches!(d.run(fut.as_mut(), 1000), RunResult::Ready(Ok(Some(()))))
+        };
+        if accepted { Some(conn) } else { None }
+    })
+}
+
+/// address of the byte at `offset` of the request buffer, learnt from a borrowed query key that the harness put
+/// at a known offset (`…?zq=1` at the end of the target, or the first key)
+fn query_key_addr(conn: &RawConn, key: &str) -> Option<usize> {
+    for (k, _) in conn.request().query.iter() {
+        if let Cow::Borrowed(s) = &k { if *s == key { return Some(s.as_ptr() as usize) } }
+    }
+    None
+}
+
+fn params_router() -> VerifRouter {
+    use ohkami::prelude::*;
+    async fn all_params(req: &Request) -> String {
+        req.path.params().map(|c| c.into_owned()).collect::<Vec<_>>().join("|")
+    }
+    async fn one_string(p: String) -> String { p }
+    VerifRouter::from(Ohkami::new((
+        "/p/:a".GET(all_params),
+        "/s/:a".GET(one_string),
+    )))
+}
+
+fn call(dec: Dec, t: usize, idx: usize, input: &[u8], cache: &mut Cache) -> CallOut {
+    fn as_str(b: &[u8]) -> Option<&str> { std::str::from_utf8(b).ok() }
+    match dec {
+        Dec::Urlenc => (TARGETS[t].urlenc)(input, range_of(input)),
+        Dec::Multipart => (TARGETS[t].multipart)(input, range_of(input)),
+        Dec::Cookie => match as_str(input) { Some(s) => (TARGETS[t].cookie)(s, range_of(input)), None => CallOut::Err },
+        Dec::Utf8 => match as_str(input) { Some(s) => (TARGETS[t].utf8)(s, range_of(input)), None => CallOut::Err },
+        Dec::CookiesIter => {
+            let Some(s) = as_str(input) else { return CallOut::Err };
+            match guarded(|| ohkami::util::iter_cookies(s).collect::<Vec<_>>()) {
+                Err(p) => CallOut::Bad(format!("panic:{}", panic_slug(&p)), p),
+                Ok(v) => fin_value(range_of(input), "", v),
+            }
+        }
+        Dec::QueryParse | Dec::QueryIter => {
+            // GET /p?<input>&zq=1 would change the input; instead the buffer base is learnt from the path: "/p" is
+            // always valid UTF-8, so `Deref` on the path is safe to call and points at offset 4 of the buffer
+            if cache.conn.as_ref().map(|c| c.0) != Some(idx) {
+                let mut raw = b"GET /p?".to_vec(); raw.extend_from_slice(input); raw.extend_from_slice(b" HTTP/1.1\r\n\r\n");
+                match read_request(&raw) {
+                    Ok(c) => cache.conn = Some((idx, c)),
+                    Err(p) => { cache.conn = None; return CallOut::Bad(format!("panic-in-request-read:{}", panic_slug(&p)), p) }
+                }
+            }
+            let Some((_, Some(conn))) = cache.conn.as_ref() else { return CallOut::Err };
+            let req = conn.request();
+            let path: &str = &req.path;
+            let qlo = path.as_ptr() as usize + 3; // "/p?" precedes the query
+            let range = (qlo, qlo + input.len());
+            if dec == Dec::QueryParse { (TARGETS[t].query)(req, range) } else {
+                match guarded(|| req.query.iter().collect::<Vec<_>>()) {
+                    Err(p) => CallOut::Bad(format!("panic:{}", panic_slug(&p)), p),
+                    Ok(v) => fin_value(range, "", v),
+                }
+            }
+        }
+        Dec::SetCookieName | Dec::SetCookiePath => {
+            let Some(s) = as_str(input) else { return CallOut::Err };
+            let built = guarded(|| {
+                let mut res = ohkami::Response::OK();
+                if dec == Dec::SetCookieName {
+                    let name: &'static str = Box::leak(s.to_string().into_boxed_str());
+                    res.headers.set().SetCookie(name, "", |d| d);
+                } else {
+                    res.headers.set().SetCookie("a", "1", |d| d.Path(s.to_string()));
+                }
+                res
+            });
+            let res = match built { Ok(r) => r, Err(p) => return CallOut::Bad(format!("panic-in-builder:{}", panic_slug(&p)), p) };
+            let Some(raw) = res.headers.iter().find(|(k, _)| *k == "Set-Cookie").map(|(_, v)| v) else { return CallOut::Err };
+            let range = range_of(raw.as_bytes());
+            let parsed = guarded(|| res.headers.SetCookie().collect::<Vec<_>>());
+            match parsed {
+                Err(p) => CallOut::Bad(format!("panic:{}", panic_slug(&p)), p),
+                Ok(v) if v.is_empty() => CallOut::Err,
+                Ok(v) => {
+                    let mut x = Insp::new(range);
+                    let r = guarded(|| for sc in &v {
+                        let (n, val) = sc.Cookie();
+                        x.borrowed_str(n);
+                        x.maybe_borrowed_str(val);
+                        for d in [sc.Expires(), sc.Domain(), sc.Path()].into_iter().flatten() { x.borrowed_str(d) }
+                        if let Some(ss) = sc.SameSite() { x.owned_str(ss) }
+                        let _ = (sc.MaxAge(), sc.Secure(), sc.HttpOnly());
+                    });
+                    if let Err(p) = r { return CallOut::Bad(format!("panic-reading-yielded-value:{}", panic_slug(&p)), p) }
+                    match x.issue { Some((k, d)) => CallOut::Bad(k.into(), d), None => CallOut::Ok { inspected: x.inspected > 0 } }
+                }
+            }
+        }
+        Dec::Percent => match t {
+            0 => match guarded(|| ohkami_lib::percent_decode(input)) {
+                Err(p) => CallOut::Bad(format!("panic:{}", panic_slug(&p)), p),
+                Ok(c) => fin_value(range_of(input), "", c),
+            },
+            _ => fin(range_of(input), guarded(|| ohkami_lib::percent_decode_utf8(input))),
+        },
+        Dec::RawParam => {
+            use ohkami::FromParam;
+            fn go<'p, T: FromParam<'p> + Inspect>(input: &'p [u8]) -> CallOut {
+                match guarded(|| T::from_raw_param(input)) {
+                    Err(p) => CallOut::Bad(format!("panic:{}", panic_slug(&p)), p),
+                    Ok(Err(_response)) => CallOut::Err,
+                    Ok(Ok(v)) => fin_value(range_of(input), "", v),
+                }
+            }
+            match t {
+                0 => go::<String>(input), 1 => go::<Cow<str>>(input), 2 => go::<&str>(input),
+                3 => go::<u8>(input), 4 => go::<u64>(input), 5 => go::<i8>(input), _ => go::<i64>(input),
+            }
+        }
+        Dec::PathStr => {
+            if cache.conn.as_ref().map(|c| c.0) != Some(idx) {
+                let mut raw = b"GET /".to_vec(); raw.extend_from_slice(input); raw.extend_from_slice(b"?zq=1 HTTP/1.1\r\n\r\n");
+                match read_request(&raw) {
+                    Ok(c) => cache.conn = Some((idx, c)),
+                    Err(p) => { cache.conn = None; return CallOut::Bad(format!("panic-in-request-read:{}", panic_slug(&p)), p) }
+                }
+            }
+            let Some((_, Some(conn))) = cache.conn.as_ref() else { return CallOut::Err };
+            // the key "zq" sits right after "GET /<input>?"  => buffer base = its address - (5 + len + 1)
+            let Some(zq) = query_key_addr(conn, "zq") else { return CallOut::Err };
+            let plo = zq - (input.len() + 2); // address of the leading '/'
+            let range = (plo, plo + 1 + input.len());
+            let req = conn.request();
+            match t {
+                0 => match guarded(|| req.path.str()) {
+                    Err(p) => CallOut::Bad(format!("panic:{}", panic_slug(&p)), p),
+                    Ok(c) => fin_value(range, "/", c),
+                },
+                1 => match guarded(|| { let s: &str = &req.path; s }) {
+                    Err(p) => CallOut::Bad(format!("panic:{}", panic_slug(&p)), p),
+                    Ok(s) => fin_value(range, "/", s),
+                },
+                _ => match guarded(|| format!("{} {:?}", req.path, req.path)) {
+                    Err(p) => CallOut::Bad(format!("panic:{}", panic_slug(&p)), p),
+                    Ok(s) => fin_value(range, "", s),
+                },
+            }
+        }
+        Dec::PathParams => {
+            if cache.router.is_none() { cache.router = Some(params_router()) }
+            let router = cache.router.as_ref().unwrap();
+            let mut raw = if t == 0 { b"GET /p/".to_vec() } else { b"GET /s/".to_vec() };
+            raw.extend_from_slice(input); raw.extend_from_slice(b" HTTP/1.1\r\n\r\n");
+            match app::oneshot(router, &raw) {
+                app::Outcome::Panic(stage, p) => CallOut::Bad(format!("panic@{stage}:{}", panic_slug(&p)), p),
+                app::Outcome::Stall(stage) => CallOut::Bad(format!("stall@{stage}"), String::new()),
+                app::Outcome::Closed => CallOut::Err,
+                // the response bytes are C03's business; here only: did the handler run and is what it echoed a valid string
+                app::Outcome::Response { raw: resp, .. } => {
+                    if resp.starts_with(b"HTTP/1.1 200") {
+                        let body = find(&resp, b"\r\n\r\n", 0).map(|i| &resp[i + 4..]).unwrap_or(&resp[..0]);
+                        if std::str::from_utf8(body).is_err() { CallOut::Bad("invalid-utf8".into(), short(body)) } else { CallOut::Ok { inspected: !body.is_empty() } }
+                    } else { CallOut::Err }
+                }
+            }
+        }
+    }
+}
+
+/* =====================================================================================================
+   input-shape features (the last component of a class id) — deterministic functions of the input only
+   ===================================================================================================== */
+
+/// The class id carries ONE feature: the first hazard present, in a per-decoder priority order chosen so that the
+/// hazard that explains a symptom comes first (`well-formed` = no hazard at all).
+fn primary(h: Vec<&'static str>, priority: &[&'static str]) -> String {
+    for p in priority { if h.contains(p) { return (*p).into() } }
+    match h.first() { Some(f) => (*f).into(), None => "well-formed".into() }
+}
+fn push(h: &mut Vec<&'static str>, f: &'static str) { if !h.contains(&f) { h.push(f) } }
+
+fn encoding_hazards(parts: &[&[u8]], h: &mut Vec<&'static str>) {
+    if parts.iter().any(|p| p.iter().any(|b| *b >= 0x80)) { push(h, "raw-non-ascii") }
+    if parts.iter().any(|p| !refenc::escapes_well_formed(p)) { push(h, "pct-malformed") }
+    // what the decoders under test do with malformed escapes is to leave them alone; decode leniently for the UTF-8 question
+    if parts.iter().any(|p| p.contains(&b'%') && std::str::from_utf8(&lenient_pct(p)).is_err()) { push(h, "pct-invalid-utf8") }
+}
+/// percent-decoding that leaves malformed escapes untouched (only used to *classify* inputs)
+fn lenient_pct(s: &[u8]) -> Vec<u8> {
+    let mut out = Vec::with_capacity(s.len());
+    let mut i = 0;
+    while i < s.len() {
+        if s[i] == b'%' && i + 2 < s.len() && refenc::is_hex(s[i + 1]) && refenc::is_hex(s[i + 2]) {
+            out.push(u8::from_str_radix(std::str::from_utf8(&s[i + 1..i + 3]).unwrap(), 16).unwrap()); i += 3;
+        } else { out.push(s[i]); i += 1 }
+    }
+    out
+}
+
+fn feat_urlenc(s: &[u8]) -> String {
+    if s.is_empty() { return "empty".into() }
+    let mut h = Vec::new();
+    let mut parts: Vec<&[u8]> = Vec::new();
+    for (k, v) in refenc::split_pairs(s) {
+        parts.push(k);
+        match v {
+            None => push(&mut h, "pair-without-eq"),
+            Some(v) => {
+                if k.is_empty() { push(&mut h, "empty-key") }
+                if v.contains(&b'=') { push(&mut h, "value-eq") }
+                parts.push(v);
+            }
+        }
+    }
+    encoding_hazards(&parts, &mut h);
+    if s.contains(&b',') { push(&mut h, "comma") }
+    primary(h, &["value-eq", "pair-without-eq", "empty-key", "pct-invalid-utf8", "raw-non-ascii", "pct-malformed", "comma"])
+}
+
+fn feat_cookie(s: &[u8]) -> String {
+    if s.is_empty() { return "empty".into() }
+    let mut h = Vec::new();
+    let mut parts: Vec<&[u8]> = Vec::new();
+    let text = String::from_utf8_lossy(s).into_owned();
+    for pair in text.split("; ") {
+        let pair = pair.as_bytes();
+        if pair.contains(&b';') { push(&mut h, "bare-semicolon") }
+        match pair.iter().position(|b| *b == b'=') {
+            None => push(&mut h, "pair-without-eq"),
+            Some(n) => {
+                let (k, v) = (&pair[..n], &pair[n + 1..]);
+                if k.is_empty() { push(&mut h, "empty-name") }
+                if v.contains(&b'=') { push(&mut h, "value-eq") }
+                let v = if v.len() >= 2 && v[0] == b'"' && v[v.len() - 1] == b'"' { &v[1..v.len() - 1] } else { v };
+                if k.iter().any(|b| *b <= 32 || *b >= 127 || b"()<>@,;:\\\"/[]?={}".contains(b)) { push(&mut h, "bad-name-char") }
+                if v.iter().any(|b| *b <= 32 || *b >= 127 || b",;\\\"".contains(b)) { push(&mut h, "bad-value-char") }
+            }
+        }
+    }
+    // the escapes are judged on the raw bytes of every `=`/`;`-separated piece
+    for piece in s.split(|b| matches!(b, b'=' | b';')) { parts.push(piece) }
+    let mut e = Vec::new();
+    encoding_hazards(&parts, &mut e);
+    for f in e { if f != "raw-non-ascii" { push(&mut h, f) } }
+    primary(h, &["pct-invalid-utf8", "value-eq", "pair-without-eq", "empty-name", "bare-semicolon", "bad-name-char", "bad-value-char", "pct-malformed"])
+}
+
+fn feat_setcookie(s: &[u8]) -> String {
+    let mut h = Vec::new();
+    let text = String::from_utf8_lossy(s).into_owned();
+    let mut pieces = text.split("; ");
+    let first = pieces.next().unwrap_or("");
+    if !first.contains('=') { push(&mut h, "no-eq") }
+    for d in pieces {
+        if let Some(v) = d.strip_prefix("Max-Age=") {
+            if v.bytes().any(|b| b < b'0') { push(&mut h, "max-age-byte-below-0") }
+            if v.bytes().any(|b| b > b'9') { push(&mut h, "max-age-byte-above-9") }
+            if v.len() >= 20 { push(&mut h, "max-age-20+digits") }
+        } else if d.starts_with("Max-Age") { push(&mut h, "max-age-without-eq") }
+        else if !["Expires=", "Domain=", "Path=", "SameSite="].iter().any(|p| d.starts_with(p)) && !d.starts_with("Secure") && !d.starts_with("HttpOnly") {
+            push(&mut h, "unknown-directive")
+        }
+    }
+    if text.contains(';') && text.split("; ").any(|p| p.contains(';')) { push(&mut h, "bare-semicolon") }
+    let mut e = Vec::new();
+    encoding_hazards(&[s], &mut e);
+    for f in e { push(&mut h, f) }
+    primary(h, &["max-age-byte-below-0", "max-age-20+digits", "max-age-byte-above-9", "max-age-without-eq", "pct-invalid-utf8", "no-eq", "unknown-directive", "bare-semicolon", "pct-malformed", "raw-non-ascii"])
+}
+
+fn feat_percent(s: &[u8]) -> String {
+    if s.is_empty() { return "empty".into() }
+    let mut h = Vec::new();
+    encoding_hazards(&[s], &mut h);
+    primary(h, &["pct-invalid-utf8", "raw-non-ascii", "pct-malformed"])
+}
+
+fn feat_utf8(s: &[u8]) -> String {
+    if s.is_empty() { return "empty".into() }
+    if s.iter().any(|b| *b >= 0x80) { "non-ascii".into() } else { "ascii".into() }
+}
+
+fn find(hay: &[u8], needle: &[u8], from: usize) -> Option<usize> {
+    if needle.is_empty() { return Some(from.min(hay.len())) }
+    if hay.len() < needle.len() { return None }
+    (from..=hay.len() - needle.len()).find(|&i| &hay[i..i + needle.len()] == needle)
+}
+
+/// tolerant scan of a multipart body, used only to name the shape of an input
+fn feat_multipart(s: &[u8]) -> String {
+    if s.is_empty() { return "empty".into() }
+    let mut h = Vec::new();
+    const CRLF: &[u8] = b"\r\n";
+    let bend = find(s, CRLF, 0).unwrap_or(s.len());
+    let boundary = &s[..bend];
+    if boundary.is_empty() { push(&mut h, "empty-boundary") }
+    else if !boundary.starts_with(b"--") { push(&mut h, "boundary-without-dashes") }
+    let mut pos = bend;
+    let mut parts = 0;
+    loop {
+        let rest = &s[pos..];
+        if rest.is_empty() { push(&mut h, "no-closing-delimiter"); break }
+        if rest.starts_with(b"--") && !rest.starts_with(CRLF) { if rest.len() > 2 { push(&mut h, "bytes-after-closing-delimiter") } break }
+        if !rest.starts_with(CRLF) { push(&mut h, "garbage-after-boundary"); break }
+        pos += 2;
+        // headers
+        let mut filename: Option<Vec<u8>> = None;
+        let mut broken = false;
+        loop {
+            let rest = &s[pos..];
+            if rest.starts_with(CRLF) { pos += 2; break }
+            let Some(e) = find(s, CRLF, pos) else { push(&mut h, "unterminated-header"); broken = true; break };
+            let line = &s[pos..e];
+            let lower = line.to_ascii_lowercase();
+            if lower.starts_with(b"content-disposition") {
+                if !line[19..].starts_with(b": form-data; name=\"") { push(&mut h, "bad-disposition") }
+                if let Some(f) = find(line, b"; filename=", 0) {
+                    let v = &line[f + 11..];
+                    if v.len() >= 2 && v[0] == b'"' && v[v.len() - 1] == b'"' { filename = Some(v[1..v.len() - 1].to_vec()) } else { push(&mut h, "bad-filename") }
+                }
+            } else if lower.starts_with(b"content-type") {
+                if !line[12..].starts_with(b": ") { push(&mut h, "bad-content-type") }
+            } else { push(&mut h, "other-header") }
+            if line.iter().any(|b| *b >= 0x80) { push(&mut h, "non-ascii-in-header") }
+            pos = e + 2;
+        }
+        if broken { break }
+        let Some(b) = find(s, boundary, pos) else {
+            // the decoder under test takes everything up to the end of the input as the content region in this case
+            if s.len() - pos < 2 { push(&mut h, "content-shorter-than-crlf") }
+            push(&mut h, "no-closing-delimiter"); break
+        };
+        let before = &s[pos..b];
+        if before.len() < 2 { push(&mut h, "content-shorter-than-crlf") }
+        else if !before.ends_with(CRLF) { push(&mut h, "content-without-crlf") }
+        let content = if before.len() >= 2 { &before[..before.len() - 2] } else { &before[..0] };
+        match &filename {
+            Some(f) => { if f.is_empty() && content.is_empty() { push(&mut h, "empty-file-part") } }
+            None => { if std::str::from_utf8(content).is_err() { push(&mut h, "non-utf8-text-part") } }
+        }
+        parts += 1;
+        pos = b + boundary.len();
+        if parts > 64 { break }
+    }
+    primary(h, &["content-shorter-than-crlf", "empty-file-part", "empty-boundary", "content-without-crlf", "non-utf8-text-part", "non-ascii-in-header",
+        "bad-disposition", "bad-filename", "bad-content-type", "other-header", "unterminated-header", "garbage-after-boundary",
+        "boundary-without-dashes", "bytes-after-closing-delimiter", "no-closing-delimiter"])
+}
+
+pub fn feature(dec: Dec, input: &[u8]) -> String {
+    match dec {
+        Dec::Urlenc | Dec::QueryParse | Dec::QueryIter => feat_urlenc(input),
+        Dec::Cookie | Dec::CookiesIter => feat_cookie(input),
+        Dec::SetCookieName => { let mut v = input.to_vec(); v.push(b'='); feat_setcookie(&v) }
+        Dec::SetCookiePath => { let mut v = b"a=1; Path=".to_vec(); v.extend_from_slice(input); feat_setcookie(&v) }
+        Dec::Percent | Dec::RawParam | Dec::PathStr | Dec::PathParams => feat_percent(input),
+        Dec::Multipart => feat_multipart(input),
+        Dec::Utf8 => feat_utf8(input),
+    }
+}
+
+/// "the input has some structure" (used for the non-trivial count only)
+fn structural(dec: Dec, input: &[u8]) -> bool {
+    match dec {
+        Dec::Urlenc | Dec::QueryParse | Dec::QueryIter | Dec::Cookie | Dec::CookiesIter | Dec::SetCookieName | Dec::SetCookiePath => input.contains(&b'=') && input.len() >= 2,
+        Dec::Percent | Dec::RawParam | Dec::PathStr | Dec::PathParams => input.contains(&b'%'),
+        Dec::Multipart => find(input, b"\r\n", 0).is_some(),
+        Dec::Utf8 => !input.is_empty(),
+    }
+}
+
+/* =====================================================================================================
+   process isolation
+   ===================================================================================================== */
+
+const MAX_T: usize = 80;
+const NCOUNT: usize = 4; // err, ok, ok+inspected, non-trivial
+#[repr(C)]
+struct Shm {
+    cur: AtomicU64,
+    done: AtomicU64,
+    counters: [AtomicU64; MAX_T * NCOUNT],
+}
+
+fn shm() -> &'static Shm {
+    use std::sync::OnceLock;
+    static S: OnceLock<usize> = OnceLock::new();
+    let p = *S.get_or_init(|| unsafe {
+        let len = std::mem::size_of::<Shm>();
+        let p = libc::mmap(std::ptr::null_mut(), len, libc::PROT_READ | libc::PROT_WRITE, libc::MAP_SHARED | libc::MAP_ANONYMOUS, -1, 0);
+        assert!(p != libc::MAP_FAILED, "mmap of the shared page failed");
+        std::ptr::write_bytes(p as *mut u8, 0, len);
+        p as usize
+    });
+    unsafe { &*(p as *const Shm) }
+}
+
+pub struct Unit {
+    pub dec: Dec,
+    pub inputs: Vec<Vec<u8>>,
+    pub targets: Vec<usize>,
+    pub label: String,
+}
+/// Which part of the catalogue a phase uses.  In the urlencoded and cookie decoders every target that is not a
+/// struct/map at top level fails the same way on *every* input (a debug assertion on the parsing side, see the
+/// findings), so those targets (`Rest`) are explored with a smaller input bound than the struct-shaped ones (`Core`).
+#[derive(Clone, Copy, PartialEq, Eq, Debug)]
+pub enum Sel { All, Core, Rest, Multipart }
+/// Targets used on the grammar-generated multipart bodies (one per serde entry point the multipart deserializer
+/// distinguishes; the other catalogue entries take the same `deserialize_any` path as `f:u8`).
+const MP_TARGETS: &[&str] = &["f:bool", "f:u8", "f:char", "f:&str", "f:String", "f:Cow<str>", "f:&[u8]", "f:Option<String>", "f:Option<&str>",
+    "f:()", "f:enum", "f:Newtype<String>", "f:Vec<String>", "f:BTreeMap<String,String>", "f:struct", "f:IgnoredAny", "f:Any",
+    "f:File", "f:Vec<File>", "f:Option<File>", "t:struct2", "t:struct2-deny-unknown", "t:BTreeMap<String,String>", "t:BTreeMap<&str,&str>", "t:Any", "t:File"];
+fn is_core(kind: &str) -> bool {
+    kind.starts_with("field:") || kind.starts_with("top:struct") || kind.starts_with("top:map") || kind.starts_with("top:newtype")
+}
+fn select(dec: Dec, sel: Sel) -> Vec<usize> {
+    (0..dec.ntargets()).filter(|&t| match sel {
+        Sel::All => true,
+        Sel::Core => !dec.uses_catalogue() || is_core(dec.target_kind(t)),
+        Sel::Rest => dec.uses_catalogue() && !is_core(dec.target_kind(t)),
+        Sel::Multipart => MP_TARGETS.contains(&dec.target_name(t)),
+    }).collect()
+}
+impl Unit {
+    fn new(dec: Dec, sel: Sel, inputs: Vec<Vec<u8>>, label: String) -> Self { Unit { dec, inputs, targets: select(dec, sel), label } }
+    fn total(&self) -> u64 { (self.inputs.len() * self.targets.len()) as u64 }
+    fn locate(&self, c: u64) -> (usize, usize) { ((c / self.targets.len() as u64) as usize, self.targets[(c % self.targets.len() as u64) as usize]) }
+}
+
+fn write_all(fd: i32, mut b: &[u8]) {
+    while !b.is_empty() {
+        let n = unsafe { libc::write(fd, b.as_ptr() as *const libc::c_void, b.len()) };
+        if n <= 0 { if n < 0 && std::io::Error::last_os_error().kind() == std::io::ErrorKind::Interrupted { continue } unsafe { libc::_exit(97) } }
+        b = &b[n as usize..];
+    }
+}
+
+fn one_line(s: &str) -> String {
+    let mut o = String::new();
+    for c in s.chars().take(300) { match c { '\t' => o.push_str("\\t"), '\n' => o.push_str("\\n"), '\r' => o.push_str("\\r"), c => o.push(c) } }
+    o
+}
+
+fn child_main(unit: &Unit, start: u64, fd: i32) -> ! {
+    unsafe {
+        let lim = libc::rlimit { rlim_cur: 512 << 20, rlim_max: 512 << 20 }; // decoders of <= 200-byte inputs never need 512 MiB of address space
+        libc::setrlimit(libc::RLIMIT_AS, &lim);
+    }
+    let s = shm();
+    let mut cache = Cache::default();
+    let nt = unit.targets.len() as u64;
+    let mut samples_sent = 0;
+    let mut cur_input = usize::MAX;
+    let mut is_structural = false;
+    for c in start..unit.total() {
+        let (i, t) = ((c / nt) as usize, unit.targets[(c % nt) as usize]);
+        if i != cur_input { cur_input = i; is_structural = structural(unit.dec, &unit.inputs[i]); }
+        s.cur.store(c, Ordering::SeqCst);
+        let out = call(unit.dec, t, i, &unit.inputs[i], &mut cache);
+        let base = t * NCOUNT;
+        match out {
+            CallOut::Err => { s.counters[base].fetch_add(1, Ordering::Relaxed); if is_structural { s.counters[base + 3].fetch_add(1, Ordering::Relaxed); } }
+            CallOut::Ok { inspected } => {
+                s.counters[base + if inspected { 2 } else { 1 }].fetch_add(1, Ordering::Relaxed);
+                s.counters[base + 3].fetch_add(1, Ordering::Relaxed);
+                if inspected && samples_sent < 1 && start == 0 && unit.inputs[i].len() >= 3 {
+                    samples_sent += 1;
+                    write_all(fd, format!("S\t{c}\n").as_bytes());
+                }
+            }
+            CallOut::Bad(sym, detail) => write_all(fd, format!("V\t{c}\t{}\t{}\n", one_line(&sym), one_line(&detail)).as_bytes()),
+        }
+        s.done.store(c + 1, Ordering::SeqCst);
+    }
+    write_all(fd, b"END\n");
+    unsafe { libc::_exit(0) }
+}
+
+fn signal_name(sig: i32) -> String {
+    match sig {
+        libc::SIGABRT => "SIGABRT".into(), libc::SIGSEGV => "SIGSEGV".into(), libc::SIGBUS => "SIGBUS".into(),
+        libc::SIGILL => "SIGILL".into(), libc::SIGFPE => "SIGFPE".into(), libc::SIGKILL => "SIGKILL".into(),
+        libc::SIGTRAP => "SIGTRAP".into(), n => format!("SIG{n}"),
+    }
+}
+
+fn class_of(dec: Dec, t: usize, sym: &str, input: &[u8]) -> (String, String) {
+    let feat = feature(dec, input);
+    (format!("C08/{}/{}/{}/{}", dec.name(), dec.target_kind(t), sym, feat), feat)
+}
+
+fn record_violation(ctx: &mut Ctx, unit: &Unit, c: u64, sym: &str, detail: &str) {
+    let (i, t) = unit.locate(c);
+    let input = &unit.inputs[i];
+    let (class, feat) = class_of(unit.dec, t, sym, input);
+    let dec = unit.dec;
+    ctx.violation(&class, true, || json!({
+        "decoder": dec.name(), "target": dec.target_name(t), "input": esc(input),
+        "symptom": sym, "feature": feat, "observed": detail,
+    }));
+}
+
+const HANG_S: f64 = 20.0;
+
+/// Run every call of the unit (in forked children), folding the results into `ctx`.
+pub fn run_unit(ctx: &mut Ctx, unit: &Unit) {
+    let t0 = std::time::Instant::now();
+    run_unit_inner(ctx, unit);
+    bump(ctx, &format!("sum_ms_{}", unit.dec.name()), t0.elapsed().as_millis() as u64);
+    bump(ctx, &format!("sum_calls_{}", unit.dec.name()), unit.total());
+}
+fn run_unit_inner(ctx: &mut Ctx, unit: &Unit) {
+    let s = shm();
+    for c in s.counters.iter() { c.store(0, Ordering::SeqCst) }
+    let total = unit.total();
+    let mut start = 0u64;
+    let mut forks = 0u64;
+    let mut isolated = 0u64;
+    while start < total {
+        if start > 0 && over_budget(ctx) { break }
+        s.cur.store(u64::MAX, Ordering::SeqCst);
+        s.done.store(start, Ordering::SeqCst);
+        let mut fds = [0i32; 2];
+        if unsafe { libc::pipe(fds.as_mut_ptr()) } != 0 { ctx.machinery_error("pipe() failed".into()); return }
+        let pid = unsafe { libc::fork() };
+        if pid < 0 { ctx.machinery_error("fork() failed".into()); return }
+        if pid == 0 {
+            unsafe { libc::close(fds[0]); }
+            child_main(unit, start, fds[1]);
+        }
+        forks += 1;
+        unsafe { libc::close(fds[1]); }
+        let rfd = fds[0];
+        let mut buf: Vec<u8> = Vec::new();
+        let mut ended = false;
+        let mut hang = false;
+        let mut out_of_budget = false;
+        let mut last_progress = (u64::MAX, u64::MAX);
+        let mut last_change = std::time::Instant::now();
+        loop {
+            let mut pfd = libc::pollfd { fd: rfd, events: libc::POLLIN, revents: 0 };
+            let pr = unsafe { libc::poll(&mut pfd, 1, 200) };
+            if pr > 0 {
+                let mut chunk = [0u8; 65536];
+                let n = unsafe { libc::read(rfd, chunk.as_mut_ptr() as *mut libc::c_void, chunk.len()) };
+                if n == 0 { break }
+                if n < 0 { if std::io::Error::last_os_error().kind() == std::io::ErrorKind::Interrupted { continue } break }
+                buf.extend_from_slice(&chunk[..n as usize]);
+                while let Some(nl) = buf.iter().position(|b| *b == b'\n') {
+                    let line: Vec<u8> = buf.drain(..=nl).collect();
+                    let line = String::from_utf8_lossy(&line[..line.len() - 1]).into_owned();
+                    let mut f = line.split('\t');
+                    match f.next() {
+                        Some("END") => ended = true,
+                        Some("V") => {
+                            let c: u64 = f.next().and_then(|x| x.parse().ok()).unwrap_or(0);
+                            let sym = f.next().unwrap_or("?").to_string();
+                            let detail = f.next().unwrap_or("").to_string();
+                            record_violation(ctx, unit, c, &sym, &detail);
+                        }
+                        Some("S") => {
+                            // at most one sample per decoder and worker, so that the evidence shows different decoders
+                            static SAMPLED: std::sync::atomic::AtomicU32 = std::sync::atomic::AtomicU32::new(0);
+                            let bit = 1u32 << ALL_DECS.iter().position(|d| *d == unit.dec).unwrap_or(31);
+                            if SAMPLED.fetch_or(bit, Ordering::SeqCst) & bit != 0 { continue }
+                            let c: u64 = f.next().and_then(|x| x.parse().ok()).unwrap_or(0);
+                            let (i, t) = unit.locate(c);
+                            let dec = unit.dec;
+                            ctx.sample(|| json!({"decoder": dec.name(), "target": dec.target_name(t), "input": esc(&unit.inputs[i]), "observed": "Ok; every yielded str valid UTF-8 and inside the input"}));
+                        }
+                        _ => {}
+                    }
+                }
+            }
+            if over_budget(ctx) {
+                // wall cap reached in the middle of a unit: stop the child, keep what was completed (the run is `capped`)
+                out_of_budget = true;
+                unsafe { libc::kill(pid, libc::SIGKILL); }
+                break;
+            }
+            let p = (s.cur.load(Ordering::SeqCst), s.done.load(Ordering::SeqCst));
+            if p != last_progress { last_progress = p; last_change = std::time::Instant::now(); }
+            else if last_change.elapsed().as_secs_f64() > HANG_S {
+                hang = true;
+                unsafe { libc::kill(pid, libc::SIGKILL); }
+                break;
+            }
+        }
+        unsafe { libc::close(rfd); }
+        let mut status = 0i32;
+        loop {
+            let r = unsafe { libc::waitpid(pid, &mut status, 0) };
+            if r == pid || (r < 0 && std::io::Error::last_os_error().kind() != std::io::ErrorKind::Interrupted) { break }
+        }
+        if out_of_budget { break }
+        if ended && !hang && libc::WIFEXITED(status) && libc::WEXITSTATUS(status) == 0 { break }
+        // the child died (or hung) inside call `cur`
+        let cur = s.cur.load(Ordering::SeqCst);
+        let done = s.done.load(Ordering::SeqCst);
+        if cur == u64::MAX || cur < start || cur >= total || done > cur {
+            ctx.machinery_error(format!("C08 child for unit {} ended abnormally outside a decoder call (status {status}, cur {cur}, done {done})", unit.label));
+            return;
+        }
+        let sym = if hang { "hang".to_string() }
+            else if libc::WIFSIGNALED(status) { format!("abort:{}", signal_name(libc::WTERMSIG(status))) }
+            else { format!("exit:{}", if libc::WIFEXITED(status) { libc::WEXITSTATUS(status) } else { -1 }) };
+        if sym.starts_with("exit:") {
+            ctx.machinery_error(format!("C08 child for unit {} exited with {sym} during call {cur}", unit.label));
+            return;
+        }
+        isolated += 1;
+        record_violation(ctx, unit, cur, &sym, "the worker's child process died inside this decoder call");
+        start = cur + 1;
+    }
+    // fold the pass counters
+    let dec = unit.dec;
+    for &t in &unit.targets {
+        let base = t * NCOUNT;
+        let (e, o, oi, nt) = (s.counters[base].load(Ordering::SeqCst), s.counters[base + 1].load(Ordering::SeqCst),
+                              s.counters[base + 2].load(Ordering::SeqCst), s.counters[base + 3].load(Ordering::SeqCst));
+        ctx.evaluations += e + o + oi;
+        ctx.nontrivial += nt;
+        ctx.collisions += oi;
+        let kind = dec.target_kind(t);
+        for (n, what) in [(e, "err"), (o, "ok"), (oi, "ok+checked-str")] {
+            if n > 0 { *ctx.outcomes.entry(format!("{}:{}:{}", dec.name(), kind, what)).or_insert(0) += n; }
+        }
+    }
+    bump(ctx, "sum_child_processes", forks);
+    bump(ctx, "sum_calls_that_killed_their_process", isolated);
+}
+
+fn bump(ctx: &mut Ctx, key: &str, n: u64) {
+    let old = ctx.extra.get(key).and_then(|v| v.as_u64()).unwrap_or(0);
+    ctx.extra.insert(key.into(), json!(old + n));
+}
+
+/* =====================================================================================================
+   enumeration
+   ===================================================================================================== */
+
+fn count_strings(n: usize, max: usize) -> u64 { (0..=max as u32).map(|l| (n as u64).pow(l)).sum() }
+
+/// the idx-th string over `alpha` in the order "shortest first, then lexicographic by token index"
+fn string_at(alpha: &[&[u8]], mut idx: u64) -> Vec<u8> {
+    let n = alpha.len() as u64;
+    let mut len = 0u32;
+    loop { let c = n.pow(len); if idx < c { break } idx -= c; len += 1; }
+    let mut toks = vec![0usize; len as usize];
+    for k in (0..len as usize).rev() { toks[k] = (idx % n) as usize; idx /= n; }
+    let mut out = Vec::new();
+    for t in toks { out.extend_from_slice(alpha[t]); }
+    out
+}
+
+/// Phase A: every string of at most `max` tokens, in chunks
+fn phase_all_strings(ctx: &mut Ctx, decs: &[(Dec, Sel)], alpha: &[&[u8]], max: usize, chunk: u64, what: &str) {
+    let total = count_strings(alpha.len(), max);
+    let mut lo = 0u64;
+    while lo < total {
+        let hi = (lo + chunk).min(total);
+        for &(dec, sel) in decs {
+            if over_budget(ctx) { return }
+            if !ctx.mine() { continue }
+            let inputs: Vec<Vec<u8>> = (lo..hi).map(|i| string_at(alpha, i)).collect();
+            run_unit(ctx, &Unit::new(dec, sel, inputs, format!("{}:{what}:{sel:?}:all-strings[{lo}..{hi})", dec.name())));
+        }
+        lo = hi;
+    }
+}
+
+/// all variants of `skel` with at most `max_edits` token edits (delete / replace / insert-before, each original
+/// position edited at most once, positions increasing) whose *first* edit is at position `first`
+/// (`first == usize::MAX`: the unedited skeleton)
+fn edit_variants(skel: &[usize], nalpha: usize, first: usize, max_edits: usize) -> Vec<Vec<usize>> {
+    fn rec(skel: &[usize], n: usize, pos: usize, left: usize, must_edit_here: bool, cur: &mut Vec<usize>, out: &mut Vec<Vec<usize>>) {
+        let m = skel.len();
+        if pos > m { return }
+        if pos == m {
+            if !must_edit_here { out.push(cur.clone()); }
+            if left > 0 { for x in 0..n { cur.push(x); out.push(cur.clone()); cur.pop(); } }
+            return;
+        }
+        if !must_edit_here { cur.push(skel[pos]); rec(skel, n, pos + 1, left, false, cur, out); cur.pop(); }
+        if left > 0 {
+            // delete
+            rec(skel, n, pos + 1, left - 1, false, cur, out);
+            for x in 0..n {
+                if x != skel[pos] { cur.push(x); rec(skel, n, pos + 1, left - 1, false, cur, out); cur.pop(); }
+                cur.push(x); cur.push(skel[pos]); rec(skel, n, pos + 1, left - 1, false, cur, out); cur.pop(); cur.pop();
+            }
+        }
+    }
+    let mut out = Vec::new();
+    if first == usize::MAX { out.push(skel.to_vec()); return out }
+    if max_edits == 0 { return out }
+    let mut cur: Vec<usize> = skel[..first.min(skel.len())].to_vec();
+    rec(skel, nalpha, first, max_edits, true, &mut cur, &mut out);
+    out
+}
+
+/// Phase B: well-formed skeletons with at most `max_edits` token edits
+fn phase_edits(ctx: &mut Ctx, decs: &[(Dec, Sel)], alpha: &[&[u8]], skeletons: &[Vec<usize>], max_edits: &dyn Fn(&[usize]) -> usize, skip_upto_tokens: usize, what: &str) {
+    for (si, skel) in skeletons.iter().enumerate() {
+        let k = max_edits(skel);
+        let firsts: Vec<usize> = std::iter::once(usize::MAX).chain(0..=skel.len()).collect();
+        for first in firsts {
+            for &(dec, sel) in decs {
+                if over_budget(ctx) { return }
+                if !ctx.mine() { continue }
+                let mut seen: HashSet<Vec<u8>> = HashSet::new();
+                let mut inputs = Vec::new();
+                for v in edit_variants(skel, alpha.len(), first, k) {
+                    if v.len() <= skip_upto_tokens { continue } // already covered by phase A
+                    let mut bytes = Vec::new();
+                    for t in &v { bytes.extend_from_slice(alpha[*t]); }
+                    if seen.insert(bytes.clone()) { inputs.push(bytes); }
+                }
+                if inputs.is_empty() { continue }
+                let label = format!("{}:{what}:skeleton#{si}:first-edit@{}", dec.name(), if first == usize::MAX { "none".into() } else { first.to_string() });
+                run_unit(ctx, &Unit::new(dec, sel, inputs, label));
+            }
+        }
+    }
+}
+
+fn over_budget(ctx: &mut Ctx) -> bool {
+    if !ctx.capped && ctx.started.elapsed().as_secs_f64() > ctx.wall_cap_s { ctx.capped = true }
+    ctx.capped
+}
+
+/* ---- alphabets ---- */
+
+const A_URLENC: &[&[u8]] = &[b"a", b"1", b"=", b"&", b"%", b"F", b",", b"-", b"\xFF"];
+// 0xFF cannot occur in a `&str`; its place is taken by a two-byte non-ASCII character
+const A_COOKIE: &[&[u8]] = &[b"a", b"1", b"=", b";", b" ", b"\"", b"%", b"F", "\u{e9}".as_bytes()];
+const A_SETCOOKIE: &[&[u8]] = &[b"a", b"=", b";", b" ", b"Max-Age=", b"9", b"x", b"99999999999999999999", b"%", b"\""];
+const A_PERCENT: &[&[u8]] = &[b"%", b"4", b"F", b"g", b"a", b"\xFF"];
+const A_PERCENT_STR: &[&[u8]] = &[b"%", b"4", b"F", b"g", b"a", "\u{e9}".as_bytes()];
+const A_MULTIPART: &[&[u8]] = &[b"--B", b"--", b"\r\n", b"Content-Disposition: form-data; name=", b"\"n\"", b"; filename=", b"\"f\"", b"\"\"",
+    b"Content-Type: ", b"text/plain", b"x", b"\xFF"];
+const A_UTF8: &[&[u8]] = &[b"a", b"1", b"-", b".", b"e", b"true", "\u{e9}".as_bytes()];
+
+fn toks(alpha: &[&[u8]], text: &[&[u8]]) -> Vec<usize> {
+    text.iter().map(|t| alpha.iter().position(|a| a == t).expect("token not in alphabet")).collect()
+}
+
+fn urlenc_skeletons() -> Vec<Vec<usize>> {
+    let a = A_URLENC;
+    vec![
+        toks(a, &[b"a", b"=", b"1"]),
+        toks(a, &[b"a", b"=", b"a", b"&", b"F", b"=", b"1"]),
+        toks(a, &[b"F", b"=", b"1", b"&", b"a", b"=", b"a"]),
+        toks(a, &[b"a", b"=", b"1", b",", b"1", b"&", b"F", b"=", b"-", b"1"]),
+        toks(a, &[b"a", b"=", b"%", b"1", b"1", b"&", b"F", b"=", b"1"]),
+        toks(a, &[b"1", b"=", b"a", b"&", b"a", b"=", b"a", b"&", b"F", b"=", b"1"]),
+        toks(a, &[b"a", b"=", b"a", b"&", b"F", b"=", b"1", b"&", b"1", b"=", b"a"]),
+    ]
+}
+fn cookie_skeletons() -> Vec<Vec<usize>> {
+    let a = A_COOKIE;
+    vec![
+        toks(a, &[b"a", b"=", b"1"]),
+        toks(a, &[b"a", b"=", b"a", b";", b" ", b"F", b"=", b"1"]),
+        toks(a, &[b"F", b"=", b"1", b";", b" ", b"a", b"=", b"\"", b"a", b"\""]),
+        toks(a, &[b"a", b"=", b"%", b"1", b"1", b";", b" ", b"F", b"=", b"1"]),
+        toks(a, &[b"1", b"=", b"a", b";", b" ", b"a", b"=", b"a", b";", b" ", b"F", b"=", b"1"]),
+        toks(a, &[b"a", b"=", b"a", b";", b" ", b"F", b"=", b"1", b";", b" ", b"1", b"=", b"a"]),
+    ]
+}
+/// (skeleton, number of parts, contains a file part with empty filename and empty content)
+fn multipart_skeletons() -> Vec<(Vec<usize>, usize, bool)> {
+    const B: usize = 0; const DD: usize = 1; const NL: usize = 2; const CD: usize = 3; const N: usize = 4; const FN: usize = 5;
+    const F: usize = 6; const EMPTY: usize = 7; const CT: usize = 8; const TP: usize = 9; const X: usize = 10; const FF: usize = 11;
+    let mut parts: Vec<(Vec<usize>, bool)> = Vec::new();
+    for value in [vec![], vec![X]] { let mut p = vec![NL, CD, N, NL, NL]; p.extend(value); p.extend([NL, B]); parts.push((p, false)); }
+    { parts.push((vec![NL, CD, F, NL, NL, X, NL, B], false)); }
+    for fname in [F, EMPTY] { for ctype in [false, true] { for content in [vec![], vec![X], vec![FF]] {
+        let mut p = vec![NL, CD, N, FN, fname, NL];
+        if ctype { p.extend([CT, TP, NL]); }
+        p.push(NL); p.extend(content.clone()); p.extend([NL, B]);
+        parts.push((p, fname == EMPTY && content.is_empty()));
+    } } }
+    let mut out = Vec::new();
+    for fin in [true, false] {
+        let close = |mut v: Vec<usize>| { if fin { v.push(DD); } v };
+        out.push((close(vec![B]), 0, false));
+        for (p, e) in &parts { let mut v = vec![B]; v.extend(p.clone()); out.push((close(v), 1, *e)); }
+        for (p, e) in &parts { for (q, f) in &parts { let mut v = vec![B]; v.extend(p.clone()); v.extend(q.clone()); out.push((close(v), 2, *e || *f)); } }
+    }
+    out
+}
+
+pub fn run(ctx: &mut Ctx) {
+    if let Err(e) = refenc::selftest() { ctx.machinery_error(e); return }
+    assert!(TARGETS.len() <= MAX_T);
+    app::pin_clock();
+    let q = ctx.quick();
+    let (len_form, len_rest, len_setcookie, len_percent, len_params, len_mp, len_utf8) = if q { (6, 3, 5, 7, 5, 5, 5) } else { (7, 4, 6, 8, 6, 6, 6) };
+    let (edits_form, edits_mp_small, edits_mp_two, edits_mp_two_with_empty_file) = if q { (2, 1, 1, 0) } else { (3, 2, 1, 1) };
+    const CH: u64 = 4096;
+
+    use Sel::*;
+    // ---- exhaustive strings ----
+    phase_all_strings(ctx, &[(Dec::Urlenc, Core)], A_URLENC, len_form, CH, "form");
+    phase_all_strings(ctx, &[(Dec::Urlenc, Rest), (Dec::QueryParse, Rest)], A_URLENC, len_rest, 64, "form-rest");
+    phase_all_strings(ctx, &[(Dec::QueryParse, Core), (Dec::QueryIter, All)], A_URLENC, len_form - 1, CH, "query");
+    phase_all_strings(ctx, &[(Dec::Cookie, Core), (Dec::CookiesIter, All)], A_COOKIE, len_form, CH, "cookie");
+    phase_all_strings(ctx, &[(Dec::Cookie, Rest)], A_COOKIE, len_rest, 64, "cookie-rest");
+    phase_all_strings(ctx, &[(Dec::SetCookieName, All), (Dec::SetCookiePath, All)], A_SETCOOKIE, len_setcookie, CH, "set-cookie");
+    phase_all_strings(ctx, &[(Dec::Percent, All), (Dec::RawParam, All)], A_PERCENT, len_percent, 4 * CH, "percent");
+    phase_all_strings(ctx, &[(Dec::PathStr, All)], A_PERCENT, len_percent - 1, 4 * CH, "path");
+    phase_all_strings(ctx, &[(Dec::RawParam, All)], A_PERCENT_STR, len_percent - 1, 4 * CH, "percent-utf8-input");
+    phase_all_strings(ctx, &[(Dec::PathParams, All)], A_PERCENT, len_params, CH, "params");
+    phase_all_strings(ctx, &[(Dec::Multipart, All)], A_MULTIPART, len_mp, CH, "multipart");
+    phase_all_strings(ctx, &[(Dec::Utf8, All)], A_UTF8, len_utf8, CH, "utf8");
+
+    // ---- well-formed skeletons with token edits ----
+    phase_edits(ctx, &[(Dec::Urlenc, Core)], A_URLENC, &urlenc_skeletons(), &|_| edits_form, len_form, "form");
+    phase_edits(ctx, &[(Dec::QueryParse, Core), (Dec::QueryIter, All)], A_URLENC, &urlenc_skeletons(), &|_| 1, len_form - 1, "query");
+    phase_edits(ctx, &[(Dec::Cookie, Core), (Dec::CookiesIter, All)], A_COOKIE, &cookie_skeletons(), &|_| edits_form, len_form, "cookie");
+    // An empty file part makes almost every target abort the process (see findings); each abort costs a fork, so in
+    // the quick tier two-part bodies that contain such a part are run unedited only.
+    let mp = multipart_skeletons();
+    let mp_skels: Vec<Vec<usize>> = mp.iter().map(|s| s.0.clone()).collect();
+    let info: std::collections::HashMap<Vec<usize>, (usize, bool)> = mp.iter().map(|s| (s.0.clone(), (s.1, s.2))).collect();
+    phase_edits(ctx, &[(Dec::Multipart, Multipart)], A_MULTIPART, &mp_skels, &|s| {
+        let (n, empty_file) = info[s];
+        if n <= 1 { edits_mp_small } else if empty_file { edits_mp_two_with_empty_file } else { edits_mp_two }
+    }, len_mp, "multipart");
+
+    ctx.extra.insert("rule".into(), json!("one case = (decoder, target type, input bytes); inputs are (A) every string of at most N tokens over the decoder's alphabet and (B) every variant with at most k token edits (delete / replace / insert) of each well-formed skeleton; every case runs the real decoder in a forked child process; non-trivial = the decoder returned Ok, or the input contains the decoder's separator; collision (designed) = the call returned Ok and at least one non-empty yielded str/slice/char actually went through the UTF-8 and pointer-range checks. Phase-B inputs are de-duplicated per skeleton and inputs short enough to be in phase A are skipped."));
+    ctx.extra.insert("bounds".into(), json!({
+        "targets_in_catalogue": TARGETS.len(),
+        "targets_core": select(Dec::Urlenc, Sel::Core).len(),
+        "non_struct_top_level_targets_max_tokens": len_rest,
+        "urlencoded": {"alphabet": A_URLENC.iter().map(|t| esc(t)).collect::<Vec<_>>(), "max_tokens": len_form, "skeletons": urlenc_skeletons().len(), "max_edits": edits_form},
+        "query": {"alphabet": "as urlencoded", "max_tokens": len_form - 1, "skeletons": urlenc_skeletons().len(), "max_edits": 1},
+        "cookie": {"alphabet": A_COOKIE.iter().map(|t| esc(t)).collect::<Vec<_>>(), "max_tokens": len_form, "skeletons": cookie_skeletons().len(), "max_edits": edits_form},
+        "set_cookie": {"alphabet": A_SETCOOKIE.iter().map(|t| esc(t)).collect::<Vec<_>>(), "max_tokens": len_setcookie, "embeddings": ["cookie name", "Path directive"]},
+        "percent": {"alphabet": A_PERCENT.iter().map(|t| esc(t)).collect::<Vec<_>>(), "max_tokens": len_percent, "path_str_max_tokens": len_percent - 1, "path_params_max_tokens": len_params},
+        "multipart": {"alphabet": A_MULTIPART.iter().map(|t| esc(t)).collect::<Vec<_>>(), "max_tokens": len_mp, "skeletons": mp_skels.len(), "max_edits_0_or_1_part": edits_mp_small, "max_edits_2_parts": edits_mp_two, "max_edits_2_parts_one_of_them_an_empty_file": edits_mp_two_with_empty_file, "targets_on_skeletons": MP_TARGETS.len()},
+        "utf8": {"alphabet": A_UTF8.iter().map(|t| esc(t)).collect::<Vec<_>>(), "max_tokens": len_utf8},
+        "hang_budget_s": HANG_S,
+    }));
+    ctx.extra.insert("distinct_by_construction".into(), json!("phase A yes; phase B per skeleton"));
+}
+
+pub fn replay(ctx: &mut Ctx, case: &Value) {
+    app::pin_clock();
+    let Some(dec) = case["decoder"].as_str().and_then(Dec::from_name) else { ctx.machinery_error("replay: unknown decoder".into()); return };
+    let tname = case["target"].as_str().unwrap_or("");
+    let Some(t) = (0..dec.ntargets()).find(|&t| dec.target_name(t) == tname) else { ctx.machinery_error(format!("replay: unknown target {tname}")); return };
+    let Some(input) = case["input"].as_str().map(unesc) else { ctx.machinery_error("replay: no input".into()); return };
+    if dec.needs_utf8_input() && std::str::from_utf8(&input).is_err() { ctx.machinery_error("replay: this decoder takes a &str; the input is not UTF-8".into()); return }
+    let mut unit = Unit::new(dec, Sel::All, vec![input], "replay".into());
+    unit.targets = vec![t];
+    run_unit(ctx, &unit);
+}
